@@ -42,7 +42,7 @@ class Voxel(BasePoint):
     """
 
     def __new__(cls, input_array, matrix_indexing=True):
-        obj = np.asarray(input_array).astype(int).view(cls)
+        obj = np.floor(np.asarray(input_array)).astype(int).view(cls)
         if not matrix_indexing:
             obj = np.fliplr(np.atleast_2d(obj)).reshape(obj.shape).view(cls)
         return obj
@@ -56,7 +56,7 @@ class VoxelCenter(BasePoint):
     """Voxel center coordinate."""
 
     def __new__(cls, input_array, matrix_indexing=True):
-        obj = np.asarray(input_array).astype(int)
+        obj = np.floor(np.asarray(input_array)).astype(int)
         obj = obj + 0.5 * np.ones(obj.shape)
         obj = obj.view(cls)
         if not matrix_indexing:
